@@ -185,8 +185,12 @@ def run_add(fns, kmax, timeout_ms):
         if kind == 'panic':
             r, mdl = solve([pre, pc], timeout_ms)
             if r != z3.unsat:
-                tag = ('add_never_panics:' if not val.startswith('MODEL') else '') + val[:60]
-                if val.startswith('MODEL'):
+                tag = 'add_never_panics:' + val[:60]
+                if val.startswith('MODEL-LIMIT: two tree entries'):
+                    # a second tree entry for a tracked key IS a violation of "the tree mirrors the map" (iter() would
+                    # yield a duplicate); the native replay confirms it on the real BTreeSet
+                    tag = 'add_preserves_topk_invariant'
+                elif val.startswith('MODEL'):
                     tag = 'MODEL: ' + val[:60]
                 if tag not in out['failed']:
                     out['failed'].append(tag if r == z3.sat else 'UNKNOWN:' + tag)
